@@ -90,7 +90,14 @@ func buildExchange(rng *rand.Rand, kind string, fc int, sizeClass int) exchange 
 	}
 	ex := exchange{kind: kind, fc: fc}
 	ex.reqSpec = fmt.Sprintf("%d,%d,%d,%d,%d,%s,%d,%s,%s", fc, tid, unit, addr, qty, b01(state), waddr, data, coils)
+	// exception codes: the ones the specification names and the rest of the byte (0, device specific, 128, 255)
 	code := byte(1 + rng.Intn(11))
+	switch rng.Intn(5) {
+	case 0:
+		code = byte([]int{0, 12, 13, 127, 128, 129, 254, 255}[rng.Intn(8)])
+	case 1:
+		code = byte(rng.Intn(256))
+	}
 	if kind == "t" {
 		ex.reply = mbapFrame(tid, unit, pdu)
 		ex.exc = mbapFrame(tid, unit, []byte{byte(fc + 128), code})
@@ -171,6 +178,29 @@ func flusherFor(rng *rand.Rand, kind string) string {
 }
 
 func genC07(tier string, rng *rand.Rand, shard, nshards int, emit emitter) {
+	// the constructors without configuration, against a loopback peer (request types whose expected reply length is
+	// exact, so that no call has to wait for the 2 s default timeout)
+	reps := 2
+	if tier == "thorough" {
+		reps = 12
+	}
+	j := 0
+	for rep := 0; rep < reps; rep++ {
+		for _, kf := range []struct {
+			kind string
+			fcs  []int
+		}{{"t", []int{1, 2, 3, 4, 6, 15, 16}}, {"r", []int{15, 16}}} {
+			for _, fc := range kf.fcs {
+				j++
+				if !mine(j, shard, nshards) {
+					continue
+				}
+				ex := buildExchange(rng, kf.kind, fc, rng.Intn(4))
+				emit(fmt.Sprintf("dor %s %s %s", kf.kind, ex.reqSpec, hx(ex.reply)))
+				emit(fmt.Sprintf("dor %s %s %s", kf.kind, ex.reqSpec, hx(ex.exc)))
+			}
+		}
+	}
 	genFragmentations(tier, rng, shard, nshards, 0, emit)
 }
 
@@ -196,6 +226,17 @@ func genFragmentations(tier string, rng *rand.Rand, shard, nshards int, hooks in
 						emit(doOp(ex, hooks, fl, R, cutScript(rng, R, nil, true)))
 						// expected length candidates for this request are near these positions
 						around := []int{5, 8, 9, 11, 12, n - 1, n - 2, n - 8}
+						// a read may deliver bytes TOGETHER with a deadline error
+						emit(doOp(ex, hooks, fl, R, "td:"+hx(R)))
+						if n > 3 {
+							c := 1 + rng.Intn(n-1)
+							emit(doOp(ex, hooks, fl, R, "td:"+hx(R[:c])+";d:"+hx(R[c:])))
+							emit(doOp(ex, hooks, fl, R, "d:"+hx(R[:c])+";t;td:"+hx(R[c:])))
+							c2 := 1 + rng.Intn(n-1)
+							if c2 > c {
+								emit(doOp(ex, hooks, fl, R, "d:"+hx(R[:c])+";td:"+hx(R[c:c2])+";td:"+hx(R[c2:])))
+							}
+						}
 						// the peer closes right after replying: the last fragment (or the whole reply) arrives together with EOF
 						emit(doOp(ex, hooks, fl, R, "e:"+hx(R)))
 						for _, c := range cutPositions(rng, n, tier, around) {
